@@ -2,13 +2,11 @@
 package main
 
 import (
-	"bufio"
 	"context"
 	"encoding/json"
 	"fmt"
 	"math/rand"
 	"os"
-	"path/filepath"
 	"sort"
 	"strings"
 	"sync"
@@ -123,10 +121,15 @@ func nextNonce(p string) string { return fmt.Sprintf("%s-%d", p, nonceSeq.Add(1)
 func releaseAll(ctl *sched.Controller, point string, rng *rand.Rand, cond func() bool, r *vh.Run, gauge string) bool {
 	deadline := time.Now().Add(10 * time.Second)
 	for !cond() && time.Now().Before(deadline) {
-		k := ctl.AwaitWaiting(point, 1, 20*time.Millisecond)
+		// AwaitWaiting with d=0 only reports the number parked (it never blocks). The blocking form arms its
+		// wake-up timer before it computes its deadline and can sleep forever when the goroutine is
+		// descheduled between the two (seen under load: this loop parked for 11 minutes), so poll instead.
+		k := ctl.AwaitWaiting(point, 1, 0)
 		if k > 0 {
 			r.Max(gauge, int64(k))
 			ctl.ReleaseOne(point, rng.Intn(k))
+		} else {
+			time.Sleep(200 * time.Microsecond)
 		}
 	}
 	ctl.Release(point)
@@ -563,142 +566,6 @@ func legacyStream(r *vh.Run, rounds, writers int) {
 	r.Sample(map[string]interface{}{"scenario": scen, "rounds": rounds, "writers": writers, "frames": len(frames)})
 }
 
-// ---- (e) stdio client stdin: requests, answers and error answers to server requests ----
-func stdinChild() {
-	// scripted stdio server: records every stdin byte, answers requests, and floods the client with
-	// server-issued requests (roots/list and an unknown method) while it is busy sending.
-	rec, _ := os.Create(os.Getenv("C09_STDIN_REC"))
-	defer rec.Close()
-	out := bufio.NewWriter(os.Stdout)
-	var omu sync.Mutex
-	write := func(s string) {
-		omu.Lock()
-		out.WriteString(s + "\n")
-		out.Flush()
-		omu.Unlock()
-	}
-	var asked atomic.Int64
-	rd := bufio.NewReaderSize(os.Stdin, 1<<20)
-	flood := func() {
-		for i := 0; i < 40; i++ {
-			n := asked.Add(1)
-			if n%2 == 0 {
-				write(fmt.Sprintf(`{"jsonrpc":"2.0","id":%d,"method":"roots/list"}`, 500000+n))
-			} else {
-				write(fmt.Sprintf(`{"jsonrpc":"2.0","id":%d,"method":"verif/unknown","params":{"nonce":"srv-%d"}}`, 500000+n, n))
-			}
-		}
-	}
-	for {
-		line, err := rd.ReadBytes('\n')
-		if len(line) > 0 {
-			rec.Write(line)
-		}
-		if err != nil {
-			return
-		}
-		var m struct {
-			ID     json.RawMessage `json:"id"`
-			Method string          `json:"method"`
-		}
-		if json.Unmarshal(line, &m) != nil {
-			continue
-		}
-		switch {
-		case m.Method == "initialize":
-			write(fmt.Sprintf(`{"jsonrpc":"2.0","id":%s,"result":{"protocolVersion":"2025-03-26","capabilities":{"tools":{}},"serverInfo":{"name":"scripted","version":"1"}}}`, m.ID))
-		case m.Method == "tools/call":
-			go flood()
-			write(fmt.Sprintf(`{"jsonrpc":"2.0","id":%s,"result":{"content":[{"type":"text","text":"ok"}]}}`, m.ID))
-		case m.Method != "" && m.ID != nil:
-			write(fmt.Sprintf(`{"jsonrpc":"2.0","id":%s,"result":{}}`, m.ID))
-		}
-	}
-}
-
-func clientStdin(r *vh.Run, calls, conc int) {
-	scen := "stdio-client-stdin"
-	recFile := filepath.Join(r.OutDir, "client-stdin.rec")
-	os.Remove(recFile)
-	self, _ := os.Executable()
-	cl, err := mcp.NewStdioClient(mcp.StdioTransportConfig{
-		ServerParams: mcp.StdioServerParameters{Command: self, Env: map[string]string{vh.ChildEnv: "c09-stdin", "C09_STDIN_REC": recFile}},
-		Timeout:      30 * time.Second,
-	}, kit.ClientInfo, mcp.WithStdioLogger(kit.Quiet{}))
-	if err != nil {
-		r.Fatal("stdio client: %v", err)
-	}
-	ctx, cancel := context.WithTimeout(context.Background(), 90*time.Second)
-	defer cancel()
-	if _, err := cl.Initialize(ctx, &mcp.InitializeRequest{}); err != nil {
-		r.Violation("C09|"+scen+"|initialize", err.Error(), nil)
-		return
-	}
-	cl.SetRootsProvider(mcp.NewDefaultRootsProvider(mcp.Root{URI: "file:///x", Name: strings.Repeat("n", 3000)}))
-	rng := r.Rand("c09-stdin")
-	pl := payloads(rng)
-	want := map[string]int{}
-	var wmu sync.Mutex
-	sem := make(chan struct{}, conc)
-	var wg sync.WaitGroup
-	for i := 0; i < calls; i++ {
-		wg.Add(1)
-		sem <- struct{}{}
-		p := pl[rng.Intn(len(pl))]
-		r.SetAdd("payload_classes", p.Class)
-		go func(p string) {
-			defer wg.Done()
-			defer func() { <-sem }()
-			nonce := nextNonce("ci")
-			wmu.Lock()
-			want[nonce] = 1
-			wmu.Unlock()
-			rq := &mcp.CallToolRequest{}
-			rq.Params.Name = "any"
-			rq.Params.Arguments = map[string]interface{}{"nonce": nonce, "p": p}
-			cctx, cc := context.WithTimeout(ctx, 30*time.Second)
-			defer cc()
-			cl.CallTool(cctx, rq)
-		}(p.S)
-	}
-	wg.Wait()
-	time.Sleep(300 * time.Millisecond) // let the answers to the flood drain
-	done := make(chan struct{})
-	go func() { cl.Close(); close(done) }()
-	select {
-	case <-done:
-	case <-time.After(15 * time.Second):
-	}
-	raw, _ := os.ReadFile(recFile)
-	lines := strings.Split(string(raw), "\n")
-	if len(lines) > 0 && lines[len(lines)-1] == "" {
-		lines = lines[:len(lines)-1]
-	}
-	var frames []string
-	answers := 0
-	for _, l := range lines {
-		frames = append(frames, l)
-	}
-	frameCheck{r, scen}.judge(frames, want, func(m map[string]json.RawMessage) bool {
-		// initialize, initialized notification, answers / error answers to server requests
-		if _, ok := m["result"]; ok {
-			answers++
-			return true
-		}
-		if _, ok := m["error"]; ok {
-			answers++
-			return true
-		}
-		var meth string
-		json.Unmarshal(m["method"], &meth)
-		return meth == "initialize" || strings.HasPrefix(meth, "notifications/")
-	})
-	r.Count("client_answers_to_server_requests", int64(answers))
-	r.Distinct(fmt.Sprintf("%s|conc=%d", scen, conc))
-	r.Sample(map[string]interface{}{"scenario": scen, "calls": calls, "lines_on_child_stdin": len(lines), "answers_to_server_requests": answers})
-	os.Remove(recFile)
-}
-
 func main() {
 	kit.MaybeServeStdioChild()
 	if vh.ChildRole() == "c09-stdin" {
@@ -728,7 +595,18 @@ func main() {
 			}
 		},
 		"legacy": func(r *vh.Run) { legacyStream(r, r.Pick(8, 300), 12) },
-		"client-stdin": func(r *vh.Run) { clientStdin(r, r.Pick(60, 3000), 8) },
+		"client-stdin": func(r *vh.Run) {
+			r.Sample(map[string]interface{}{"scenario": "client-stdin", "runs": []interface{}{
+				clientStdin(r, 4, r.Pick(800, 5000), 1<<30),
+				clientStdin(r, 8, r.Pick(600, 4000), 1<<30)}})
+		},
+		"client-http": func(r *vh.Run) {
+			r.Sample(map[string]interface{}{"scenario": "client-http", "runs": []interface{}{
+				clientHTTP(r, false, 4, r.Pick(150, 800), 1<<30),
+				clientHTTP(r, true, 4, r.Pick(150, 800), 1<<30),
+				clientHTTP(r, false, 8, r.Pick(80, 400), 1<<30),
+				clientHTTP(r, true, 8, r.Pick(80, 400), 1<<30)}})
+		},
 	}
 	if vh.ChildRole() == "c09-scen" {
 		cr := vh.NewChildRun("C09")
@@ -736,16 +614,27 @@ func main() {
 		cr.ExportAndExit()
 	}
 	r := vh.NewRun("C09", "exploration")
-	names := []string{"stdio-held", "stdio-free", "get", "post", "legacy", "client-stdin"}
+	names := []string{"client-stdin", "client-http", "stdio-held", "stdio-free", "get", "post", "legacy"}
 	var wg sync.WaitGroup
-	for _, name := range names {
+	results := make([]*vh.ChildResult, len(names))
+	for i, name := range names {
 		wg.Add(1)
-		go func(name string) {
+		go func(i int, name string) {
 			defer wg.Done()
-			res := r.SpawnChild("c09-scen", name, os.Args[1:], append(r.ChildEnvFor(), "C09_SCEN="+name), nil, 12*time.Minute)
+			results[i] = r.SpawnChild("c09-scen", name, os.Args[1:], append(r.ChildEnvFor(), "C09_SCEN="+name), nil, 12*time.Minute)
+		}(i, name)
+	}
+	wg.Wait()
+	// merge in a fixed order (the evidence keeps the first few samples only: one per client scenario, then the streams)
+	for i, name := range names {
+		func(name string, res *vh.ChildResult) {
 			cr := r.Merge(res.Stdout())
 			if !cr.Done {
 				stderr := res.Stderr()
+				if i := strings.Index(string(res.Stdout()), "HARNESS-ERROR"); i >= 0 {
+					// the scenario aborted itself (r.Fatal): a harness problem, not an observation about the library
+					r.Fatal("scenario %s: %s", name, clip(strings.TrimSpace(string(res.Stdout())[i:])))
+				}
 				if res.TimedOut {
 					r.Inconclusive(fmt.Sprintf("scenario %s hit the watchdog", name))
 				} else {
@@ -753,11 +642,11 @@ func main() {
 						map[string]interface{}{"crash": vh.CrashLine(stderr), "first_library_frame": vh.FirstLibFrame(stderr), "stderr_tail": clip(stderr)})
 				}
 			}
-		}(name)
+		}(name, results[i])
 	}
-	wg.Wait()
 	var keys []string
 	sort.Strings(keys)
-	r.Finish("streams: stdio server stdout (responses from per-request goroutines + server-issued roots/list requests), Streamable GET stream (notifications + server requests from 2-8 goroutines), POST SSE stream (notifications from 2-4 goroutines inside one handler, then the result), legacy SSE stream (responses, notifications, 2 ms keep-alive comments), stdio client stdin (requests from 8 goroutines + answers and error answers to a flood of server requests). Writers are parked by the yield controller between payload and newline (stdio.write.mid) and between the lines of one event (sse.write.afterid / sse.write.beforeterm) and released in seeded permutations, plus free-running stress. Payloads contain CR, LF, CRLF, U+2028/2029, SSE field names, and sizes around 4096 and 65536. A strict LF splitter / WHATWG SSE reader must recover exactly the multiset of nonce-carrying messages written, each frame one JSON value. Distinct = (stream scenario, writer count).",
-		[]string{"with the write locks in place only one writer can be parked inside a frame; the evidence gauges writers_parked_* report how many were simultaneously inside", "stdout is an in-memory writer whose Write calls are atomic (like write(2) below PIPE_BUF); the client-stdin scenario uses a real pipe"})
+	r.Finish("streams: stdio server stdout (responses from per-request goroutines + server-issued roots/list requests), Streamable GET stream (notifications + server requests from 2-8 goroutines), POST SSE stream (notifications from 2-4 goroutines inside one handler, then the result), legacy SSE stream (responses, notifications, 2 ms keep-alive comments), and the CLIENT-to-server direction against scripted servers written without the library: stdio client stdin (4 and 8 application goroutines sending tools/call, list/get/read requests and bursts of roots/list_changed notifications while the scripted server floods the client with tens of thousands of server-issued requests of 9 kinds - roots/list with and without params, sampling/createMessage small and 8 KiB, elicitation/create, ping, unknown method, a client-to-server method in the wrong direction, a method name with line breaks; numeric and string ids - so that the read loop writes result and method-not-found answers concurrently with the application goroutines; the child records its stdin split at LF only), Streamable and legacy SSE clients (same workload; frame = POST body; server-issued requests arrive on the GET / event stream). For the client direction the multiset is: initialize and initialized once, every application request once (by nonce), as many roots/list_changed as sends that returned nil, exactly one answer per server-issued id and no answer with another id. Writers are parked by the yield controller between payload and newline (stdio.write.mid) and between the lines of one event (sse.write.afterid / sse.write.beforeterm) and released in seeded permutations, plus free-running stress. Payloads contain CR, LF, CRLF, U+2028/2029, SSE field names, and sizes around 4096 and 65536. A strict LF splitter / WHATWG SSE reader must recover exactly the multiset of nonce-carrying messages written, each frame one JSON value. Distinct = (stream scenario, writer count).",
+		[]string{"with the write locks in place only one writer can be parked inside a frame; the evidence gauges writers_parked_* report how many were simultaneously inside", "stdout is an in-memory writer whose Write calls are atomic (like write(2) below PIPE_BUF); the client-stdin scenario uses a real pipe",
+			"client direction: there is no yield point between the writes of one client frame, so interleavings inside a client frame are explored by volume only (free-running stress, window one syscall wide); an API call that reports a send failure leaves open whether its message was written (0 or 1 copies accepted); an empty stdin line carries no message and is skipped (counted in cli_empty_lines); when the scripted server's 20 s no-progress watchdog ends the wait for answers, missing answers are inconclusive"})
 }
